@@ -62,6 +62,14 @@ fn transform(rng: &mut Rng, text: &str, which: usize) -> String {
             let g = gaps[rng.below(gaps.len())];
             format!("{} [- é c -] {}", &text[..g], &text[g + 1..])
         }
+        5 => { // block comment between two words INSIDE a component (multi-word name, alias, unit, text value, note) or a section name:
+               // these runs are read through text_trimmed, so the recipe must be equal (no white-space allowance is needed)
+            let b = text.as_bytes();
+            let gaps: Vec<usize> = (1..b.len().saturating_sub(1)).filter(|&i| b[i] == b' ' && b[i - 1].is_ascii_lowercase() && b[i + 1].is_ascii_lowercase() && in_component(text, i)).collect();
+            if gaps.is_empty() { return text.to_string(); }
+            let g = gaps[rng.below(gaps.len())];
+            format!("{} [- é c -] {}", &text[..g], &text[g + 1..])
+        }
         _ => { // extra blank / comment-only lines between blocks: after an existing blank line
             let idxs: Vec<usize> = (1..lines.len()).filter(|&i| lines[i].is_empty() && !in_front(&lines, i)).collect();
             if idxs.is_empty() { return text.to_string(); }
@@ -91,8 +99,47 @@ fn in_special(text: &str, pos: usize) -> bool {
     open || in_name
 }
 
+/// a blank between two words of a component body (name / alias between marker and `{`, inside `{…}` or `(…)`) or of a section
+/// name; never in `>>` lines (the value of a `>>` entry is only trimmed at its ends), `>` paragraphs or the front matter
+fn in_component(text: &str, pos: usize) -> bool {
+    let lines: Vec<&str> = text.split('\n').collect();
+    let ls = text[..pos].rfind('\n').map(|p| p + 1).unwrap_or(0);
+    let line_no = text[..pos].matches('\n').count();
+    if in_front(&lines, line_no) { return false; }
+    let line = &text[ls..text[pos..].find('\n').map(|p| p + pos).unwrap_or(text.len())];
+    if line.starts_with('>') || line.trim_end() == "---" { return false; }
+    if line.starts_with('=') { return true; }
+    let before = &text[ls..pos];
+    let open = before.matches('{').count() > before.matches('}').count() || before.matches('(').count() > before.matches(')').count();
+    let last_marker = before.rfind(|c| c == '@' || c == '#' || c == '~');
+    let in_name = match last_marker { Some(m) => !before[m..].contains('{') && text[pos..].find('{').map(|b| text[pos..pos + b].find(|c| c == '@' || c == '#' || c == '~' || c == '\n').is_none()).unwrap_or(false), None => false };
+    open || in_name
+}
+
+/// fixed boundary inputs of the audit (notes/audit-C17.md): both variants go through the model (so the model is tied to the
+/// code on them); what the implementation does is only COUNTED, these inputs are outside the quantifier of the oracle
+fn boundary_witnesses(ctx: &mut Ctx) {
+    let cases: [(&str, u32, &str, &str); 6] = [
+        // the backslash exclusion of the CRLF clause is necessary: one step against two (theorem C17_crlf_backslash_exclusion_needed)
+        ("backslash-crlf", 0, "one\\\n\ntwo\n", "one\\\r\n\r\ntwo\r\n"),
+        ("backslash-crlf-min", 0, "a\\\n\nb", "a\\\r\n\r\nb"),
+        // define mode text copies the source of a component: line end spelling (white space) …
+        ("textmode-crlf", 0xEEA, ">> [mode]: text\n\nAdd @sea\nsalt{} now\n", ">> [mode]: text\r\n\r\nAdd @sea\r\nsalt{} now\r\n"),
+        // … and comments (NOT white space): theorem C17_text_mode_copies_source
+        ("textmode-block-comment-in-name", 0xEEA, ">> [mode]: text\n\nAdd @sea salt{} now\n", ">> [mode]: text\n\nAdd @sea [- c -] salt{} now\n"),
+        ("textmode-trailing-comment-in-name", 0xEEA, ">> [mode]: text\n\nAdd @sea\nsalt{} now\n", ">> [mode]: text\n\nAdd @sea -- c\nsalt{} now\n"),
+        // the value of a `>>` entry is trimmed at its ends only: a block comment between two of its words leaves two blanks
+        ("meta-value-block-comment", 0, ">> my key: some value\n", ">> my key: some [- c -] value\n"),
+    ];
+    for (name, ext, base, new) in cases {
+        let (Some(b), Some(a)) = (recipe_case(ctx, base, ext, 0), recipe_case(ctx, new, ext, 0)) else { continue };
+        let same = match (a.output(), b.output()) { (Some(x), Some(y)) => loose(x) == loose(y), (None, None) => true, _ => false } && a.is_valid() == b.is_valid();
+        ctx.count(&format!("witness:{name}:{}", if same { "same" } else { "differs" }));
+    }
+}
+
 pub fn run(ctx: &mut Ctx) {
-    ctx.rule = "well-formed recipes (as C01, plain spelling) and, for CRLF, also soups without backslash / lone CR; 5 transformations (LF->CRLF, trailing comment, trailing spaces, block comment between two words of step text, extra blank/comment-only lines between blocks) at random insertion points; oracle: the parsed recipe is equal up to whitespace inside step text and validity is equal; original and transformed input both go through the model. non-trivial = recipe with components / several sections / diagnostics".into();
+    ctx.rule = "well-formed recipes (as C01, plain spelling) and, for CRLF, also soups without backslash / lone CR; 6 transformations (LF->CRLF, trailing comment, trailing spaces, block comment between two words of step text, extra blank/comment-only lines between blocks, block comment between two words inside a component name / alias / unit / text value / note or a section name) at random insertion points; oracle: the parsed recipe is equal up to whitespace inside step text and validity is equal; original and transformed input both go through the model. non-trivial = recipe with components / several sections / diagnostics".into();
     let mut rng = Rng::new(ctx.seed ^ 0xC17);
     // the side conditions of the CRLF theorem (C17_crlf: CR and LF are neither lexer white space nor word characters)
     // must hold of the character table generated from the real lexer on this run
@@ -108,7 +155,7 @@ pub fn run(ctx: &mut Ctx) {
         // names wrapped over a line break exercise line ends inside component names (not step text)
         let base = wf::spell(&r, &Style { seed: rng.next(), spaces: false, comments: false, wrap: i % 2 == 0, crlf: false, unit_space: false });
         let Some(b) = recipe_case(ctx, &base, ext, conv) else { continue };
-        for which in 0..5 {
+        for which in 0..6 {
             let t = transform(&mut rng, &base, which);
             if t == base { ctx.count(&format!("transform{which}:not-applicable")); continue; }
             ctx.count(&format!("transform{which}"));
@@ -122,6 +169,7 @@ pub fn run(ctx: &mut Ctx) {
             }
         }
     }
+    boundary_witnesses(ctx);
     // CRLF on arbitrary inputs without backslash and without a lone CR
     let m = if ctx.thorough { 200_000 } else { 6_000 };
     for i in 0..m {
